@@ -96,13 +96,18 @@ class HookFile(io.BytesIO):
         return io.BytesIO.read(self, n)
 
 
+def texts_of(track):
+    """The texts of the text and track_name events of a track."""
+    return [m.text if m.type == 'text' else m.name for m in track if m.type in ('text', 'track_name')]
+
+
 def build_load(cs, fault, at, n=3):
     """-> (list of byte strings to try, realised?)"""
     text = TEXTS[cs].encode(cs)
     events = []
     realised = fault in ('none', 'truncate', 'unknown_charset')
     for i in range(1, n + 1):
-        ev = b'\x00\xff\x01' + vlq(len(text)) + text
+        ev = (b'\x00\xff\x03' if i == 2 else b'\x00\xff\x01') + vlq(len(text)) + text
         if fault == 'bad_data_byte' and at == i:
             ev = b'\x00\x90\x3c\xc8'
             realised = True
@@ -165,13 +170,13 @@ def run_call(kind, cs, fault, at, children=(), outer='latin1'):
                                   use_cs, fault, at, inside)))
                 break
             if ok and fault in ('none',) or (ok and not realised):
-                texts = [m.text for m in mid.tracks[0] if m.type == 'text']
+                texts = texts_of(mid.tracks[0])
                 if texts != [TEXTS[cs]] * 3:
                     probs.append(('load-text/' + cs, 'loaded texts %r expected %r' % (texts, TEXTS[cs])))
                 # clip concerns MIDI data bytes, not the 8-bit payload of meta events
                 try:
                     mc = mido.MidiFile(file=io.BytesIO(data), charset=use_cs, clip=True)
-                    tc = [m.text for m in mc.tracks[0] if m.type == 'text']
+                    tc = texts_of(mc.tracks[0])
                 except Exception as e:
                     tc = repr(e)
                 if tc != [TEXTS[cs]] * 3:
@@ -206,7 +211,8 @@ def run_call(kind, cs, fault, at, children=(), outer='latin1'):
         tr = mido.MidiTrack()
         realised = fault in ('none', 'unknown_charset')
         for i in range(1, 4):
-            m = mido.MetaMessage('text', text=TEXTS[cs], time=1)
+            m = mido.MetaMessage('text', text=TEXTS[cs], time=1) if i != 2 else \
+                mido.MetaMessage('track_name', name=TEXTS[cs], time=1)
             if fault == 'non_integer_time' and at == i:
                 m = mido.MetaMessage('text', text=TEXTS[cs], time=0.5)
                 realised = True
@@ -220,6 +226,19 @@ def run_call(kind, cs, fault, at, children=(), outer='latin1'):
         # an empty text is a text too: its encoding in the file's charset (a byte order mark in
         # utf-16) is what the file holds
         tr.append(mido.MetaMessage('marker', text='', time=0))
+        if fault == 'none' and not children and len(cs) % 3 != 1:
+            # the track comes out of a file that was read with ANOTHER charset (tracks are moved
+            # between files when merging or converting): messages carry text, not bytes
+            other = 'utf-8' if cs != 'utf-8' else 'utf-16'
+            try:
+                src = mido.MidiFile(charset=other)
+                src.tracks.append(tr)
+                buf0 = io.BytesIO()
+                src.save(file=buf0)
+                tr = mido.MidiFile(file=io.BytesIO(buf0.getvalue()), charset=other).tracks[0]
+                del tr[-1]                     # (its end_of_track)
+            except Exception as e:
+                probs.append(('migrate-raises/' + cs, repr(e)))
         if children:
             def gen(msgs=list(tr)):
                 for k, m in enumerate(msgs):
@@ -265,7 +284,7 @@ def run_call(kind, cs, fault, at, children=(), outer='latin1'):
                 probs.append(('save-bytes-empty-text/' + cs, "an empty marker is not written as ''.encode(%r) = %r" % (cs, empty)))
             try:
                 back = mido.MidiFile(file=io.BytesIO(data), charset=cs)
-                texts = [m.text for m in back.tracks[0] if m.type == 'text']
+                texts = texts_of(back.tracks[0])
                 if texts != [TEXTS[cs]] * 3:
                     probs.append(('reload-text/' + cs, 'reloaded texts %r' % (texts,)))
             except Exception as e:
